@@ -538,12 +538,20 @@ T1 = "thread-aaaaaaaaa"      # 16 chars; T1 is a proper prefix of T2 on purpose
 T2 = "thread-aaaaaaaaab"
 THREADS = {"T1": T1, "T2": T2, "none": None}
 MSGS = {"m1": {"role": "user", "content": "m1"}, "m2": {"role": "user", "content": "m2"}}
-B_ALPHABET = [(t, ms) for t in ("T1", "T2", "none") for ms in (("m1",), ("m2",), ("m1", "m2"))]
+CTX = {"k": "c1"}             # the request's `context` field ("C" in a request's message tuple): the server puts it
+CTX_MSG = {"role": "context", "content": CTX}   # in front of the request's new messages as a context message
+B_ALPHABET = [(t, ms) for t in ("T1", "T2", "none") for ms in (("m1",), ("m2",), ("m1", "m2"), ("C", "m1"))]
+
+
+def _new_messages(ms):
+    return ([copy.deepcopy(CTX_MSG)] if "C" in ms else []) + [copy.deepcopy(MSGS[m]) for m in ms if m != "C"]
 
 
 def b_body(req):
     t, ms = req
-    body = {"config_id": "cfg1", "messages": [copy.deepcopy(MSGS[m]) for m in ms]}
+    body = {"config_id": "cfg1", "messages": [copy.deepcopy(MSGS[m]) for m in ms if m != "C"]}
+    if "C" in ms:
+        body["context"] = copy.deepcopy(CTX)
     if THREADS[t] is not None:
         body["thread_id"] = THREADS[t]
     return body
@@ -563,7 +571,7 @@ def b_do(req):
 def b_expect(model, req):
     """reference model: dict thread -> list of messages"""
     t, ms = req
-    new = [MSGS[m] for m in ms]
+    new = _new_messages(ms)
     used = (list(model.get(t, [])) if t != "none" else []) + new
     reply = fake_reply(used)
     model2 = {k: list(v) for k, v in model.items()}
@@ -591,7 +599,7 @@ def b_judge(model, req, obs):
         return out, model2
     used = obs["used"][0]
     if used != used_e:
-        new = [MSGS[m] for m in ms]
+        new = _new_messages(ms)
         stored = list(model.get(t, [])) if t != "none" else []
         others = [m for k, v in model.items() if k != t for m in v if m.get("role") == "assistant"]
         if t == "none":
@@ -791,7 +799,7 @@ def run(rep, tier):
             "single-/multi-config mode is derived by the server's own startup_event for each root",
             "a request carrying no id at all (config_id absent/'' or config_ids=[] and no server default) is answered by the "
             "deliberate GuardrailsConfigurationError raise; it is counted (A_no_id_*), not judged",
-            "part B: MemoryStore; thread ids T1/T2 (T1 is a prefix of T2), no `context`, no streaming; store compared by "
+            "part B: MemoryStore; thread ids T1/T2 (T1 is a prefix of T2), `context` on one request form, no streaming; store compared by "
             "content (key naming is free)",
         ]
         a_deadline = t0 + budget * 0.75
